@@ -14,6 +14,8 @@
 import Fc.Text
 import Fc.Holds
 import Fc.CoText
+import Fc.MonNest
+import Fc.NestText
 
 open Fc
 
@@ -28,6 +30,8 @@ structure CaseAcc where
   impl    : Array String := #[]
   bad     : Option String := none
   co      : Option Co.Cfg := none
+  nest    : Bool := false
+  nestHdr : List String := []
 
 def CaseAcc.toCase (a : CaseAcc) : Case :=
   { fam := a.fam, mode := a.mode, keyed := a.keyed, n := a.n,
@@ -71,11 +75,63 @@ def finishCo (a : CaseAcc) (cfg : Co.Cfg) : IO Unit := do
     let evs := parsed.filterMap (fun p => p.join)
     IO.println s!"R {a.id} {Co.verdict cfg evs}"
 
+/-- one level of nesting: the flattened trace of the real code (leaves of the inner combinators and
+    the children of the outer one all count as children; the task waker is the outer one's) is
+    judged by the same monitors: no owed wake-up of any leaf is outstanding while the nest is
+    Pending without the task having been woken (C01), poll discipline (C03), no spurious unwind -/
+def finishNest (a : CaseAcc) : IO Unit := do
+  match a.impl.toList.mapM (fun l => parseEv (words l)) with
+  | none => IO.println s!"R {a.id} eq=0 parse=0"
+  | some evs0 =>
+    -- the leaves of an inner combinator that has finished (its wrapper answered Ready / None) are out
+    -- of the game: their wake-ups no longer matter and they must not be polled again
+    let leavesOf := fun (c : Nat) =>
+      (evs0.filterMap (fun e => match e with
+        | .childBegin l _ _ => if 100 * (c + 1) ≤ l && l < 100 * (c + 2) then some l else none
+        | _ => none)).eraseDups
+    let evs := evs0.flatMap (fun e => match e with
+      | .childEnd c (.ready ok v) => if c < 100 then Ev.childEnd c (.ready ok v) :: (leavesOf c).map Ev.childDropped else [e]
+      | .childEnd c .fin => if c < 100 then Ev.childEnd c .fin :: (leavesOf c).map Ev.childDropped else [e]
+      | e => [e])
+    let t := evs.reverse
+    let nch := evs.foldl (fun m e => match e with | .childBegin c _ _ => max m (c + 1) | _ => m) 0
+    let b := fun (x : Bool) => if x then "1" else "0"
+    -- correspondence with the lock-step model, instance by instance
+    let eqText : String := match a.nestHdr with
+      | [mode, outer, n, spec] =>
+        (match parseMode mode, Nest.parseOuter outer, n.toNat?, Nest.parseSpec spec with
+         | some m, some fo, some n, some sp =>
+           let nc : Nest.NCase :=
+             { mode := m, outer := fo, n := n, inner := fun c => (sp[c]?).join,
+               scripts := fun c => ((a.scripts.find? (fun p => p.1 = c)).map (·.2)).getD [],
+               ops := a.ops.toList }
+           let st := Nest.run nc
+           let nested := fun c => (nc.inner c).isSome
+           let implWords := a.impl.toList.map words
+           let outerM := canonDrop (st.out.w.trace.reverse.filterMap (Nest.outerLine nested))
+           let outerI := canonDrop (implWords.filterMap (Nest.outerImplLine nested))
+           let inners := (List.range n).filter nested
+           let innerOk := inners.all (fun c =>
+             canonDrop ((st.inn c).w.trace.reverse.filterMap Nest.innerLine)
+               == canonDrop (implWords.filterMap (Nest.innerImplLine c)))
+           let dbg := if a.id.endsWith "DBG" then
+               "\nMODEL-OUT: " ++ " | ".intercalate outerM ++ "\nIMPL-OUT: " ++ " | ".intercalate outerI ++
+               "\n" ++ "\n".intercalate (inners.map (fun c => s!"INN{c} M: " ++ " | ".intercalate (canonDrop ((st.inn c).w.trace.reverse.filterMap Nest.innerLine)) ++ s!"\nINN{c} I: " ++ " | ".intercalate (canonDrop (implWords.filterMap (Nest.innerImplLine c)))))
+             else ""
+           let od := match firstDiff outerM outerI with
+             | none => ""
+             | some (k, x, y) => s!" div={k} model=[{x}] impl=[{y}]"
+           s!"eq={b (outerM == outerI && innerOk)} eqOUT={b (outerM == outerI)} eqINN={b innerOk} modelNest={b (Nest.holdsNest nc)}" ++ od ++ dbg
+         | _, _, _, _ => "eq=0 bad=nest-header")
+      | _ => "eq=0 bad=nest-header"
+    IO.println s!"R {a.id} {eqText} nest=1 C01={b (Mon.holds_C01_nest nch t)} NP={b (Mon.c01NoPanic t)} C03={b (Mon.holds_C03 false t)}"
+
 def finish (modeArg : String) (a : CaseAcc) : IO Unit := do
   match a.bad, a.co with
   | some msg, _ => IO.println s!"R {a.id} eq=0 bad={msg}"
   | none, some cfg => finishCo a cfg
   | none, none =>
+   if a.nest then finishNest a else
     let model := canonDrop ((a.toCase.run).map Ev.text)
     if modeArg = "model" then
       IO.println s!"CASE {a.id}"
@@ -97,6 +153,7 @@ partial def loop (modeArg : String) (h : IO.FS.Stream) (a : CaseAcc) : IO Unit :
   let line ← h.getLine
   if line.isEmpty then return ()
   match words line with
+  | "CASE" :: id :: "nest" :: rest => loop modeArg h { id := id, nest := true, nestHdr := rest }
   | "CASE" :: id :: "co" :: _mode :: term :: shape :: takes :: limits :: _ =>
     match Co.parseCfg term shape takes limits with
     | some cfg => loop modeArg h { id := id, co := some cfg }
